@@ -8,6 +8,7 @@ INVARIANT EachOnce
 INVARIANT ReturnsAfterAll
 INVARIANT EventsOnceInOrder
 INVARIANT OneAtATime
+INVARIANT OwnBlock
 INVARIANT BrokenReported
 INVARIANT AbortTellsAll
 CHECK_DEADLOCK TRUE
